@@ -646,11 +646,12 @@ class Delta:
                         # Items are the same in both lists, so we add them to the result
                         transformed.extend(obj[opcode.t1_from_index:opcode.t1_to_index])  # type: ignore
                 if is_obj_tuple:
-                    obj = tuple(obj)  # type: ignore
-                    # Making sure that the object is re-instated inside the parent especially if it was immutable
+                    obj = tuple(transformed)  # type: ignore
+                    # Making sure that the object is re-instated inside its container especially if it was immutable
                     # and we had to turn it into a mutable one. In such cases the object has a new id.
-                    self._simple_set_elem_value(obj=parent, path_for_err_reporting=path, elem=parent_to_obj_elem,
-                                                value=obj, action=parent_to_obj_action)
+                    container = self.get_nested_obj(obj=self, elements=elements[:-1])
+                    self._simple_set_elem_value(obj=container, path_for_err_reporting=path, elem=elem,
+                                                value=obj, action=action)
                 else:
                     obj[:] = transformed  # type: ignore
 
